@@ -244,11 +244,13 @@ def batchK (mem len : Nat) (count : Option Nat) (fill : Bool) : Chk (Out (List N
 
 /-- one round of the `for slice in 0..count` loop: length of the produced column.
     `offset` before the round is `min slice extra` (it is incremented while `slice < extra`). -/
-def sliceColumn (len ips extra : Nat) (fill : Bool) (s : Nat) : Chk Nat := do
-  let start ← usize ((min s extra + s * ips : Nat) : Int)               -- `offset + slice * items_per_slice`
-  let stop ← usize ((min (s + 1) extra + (s + 1) * ips : Nat) : Int)     -- `offset + (slice + 1) * items_per_slice`
-  if start ≤ stop ∧ stop ≤ len then                               -- `&items[start..end]`
-    pure (stop - start + (if fill && decide (s ≥ extra) then 1 else 0))
+def sliceColumn (len ips extra : Nat) (fill : Bool) (s : Nat) : Chk Nat :=
+  let start := min s extra + s * ips                  -- `offset + slice * items_per_slice`
+  let stop := min (s + 1) extra + (s + 1) * ips       -- `offset + (slice + 1) * items_per_slice`
+  if start < 18446744073709551616 ∧ stop < 18446744073709551616 then        -- `usize` arithmetic
+    if start ≤ stop ∧ stop ≤ len then                                       -- `&items[start..end]`
+      .ok (stop - start + (if fill && decide (s ≥ extra) then 1 else 0))
+    else .panic
   else .panic
 
 def sliceFK (mem len : Nat) (count : Option Nat) (fill : Bool) : Chk (Out (List Nat)) :=
